@@ -19,7 +19,8 @@ package impl
 //       json.Unmarshal of the text into a fresh ast.QueryDocument.
 //       reply  <sexp of the decoded document, positions zero> | E,<hex error> | OUTSIDE (the decoded
 //       document is not a value of the tree type of the model: a nil pointer inside a list, an argument or
-//       object field without Value, a variable definition without Type, a Kind outside 0..9).
+//       object field without Value, a variable definition without Type, a Kind outside 0..9, a non-nil
+//       validation link / Comment / Position).
 //   jsonrtv <hex schema text> <hex document text>
 //       the same after validator.Validate(schema, doc) (the document now carries the
 //       "Require validation" links, which are encoded too).
@@ -519,11 +520,11 @@ func (n *JNode) Sexp(sb *strings.Builder) (ok bool) {
 }
 
 func outsideValue(v *ast.Value) bool {
-	if v == nil || v.Kind < 0 || v.Kind > 9 {
+	if v == nil || v.Kind < 0 || v.Kind > 9 || v.Comment != nil || v.Definition != nil || v.VariableDefinition != nil || v.ExpectedType != nil {
 		return true
 	}
 	for _, c := range v.Children {
-		if c == nil || outsideValue(c.Value) {
+		if c == nil || c.Comment != nil || outsideValue(c.Value) {
 			return true
 		}
 	}
@@ -532,7 +533,7 @@ func outsideValue(v *ast.Value) bool {
 
 func outsideArgs(as ast.ArgumentList) bool {
 	for _, a := range as {
-		if a == nil || outsideValue(a.Value) {
+		if a == nil || a.Comment != nil || outsideValue(a.Value) {
 			return true
 		}
 	}
@@ -541,7 +542,7 @@ func outsideArgs(as ast.ArgumentList) bool {
 
 func outsideDirs(ds ast.DirectiveList) bool {
 	for _, d := range ds {
-		if d == nil || outsideArgs(d.Arguments) {
+		if d == nil || d.ParentDefinition != nil || d.Definition != nil || outsideArgs(d.Arguments) {
 			return true
 		}
 	}
@@ -552,15 +553,16 @@ func outsideSels(ss ast.SelectionSet) bool {
 	for _, x := range ss {
 		switch f := x.(type) {
 		case *ast.Field:
-			if f == nil || outsideArgs(f.Arguments) || outsideDirs(f.Directives) || outsideSels(f.SelectionSet) {
+			if f == nil || f.Definition != nil || f.ObjectDefinition != nil || f.Position != nil || f.Comment != nil ||
+				outsideArgs(f.Arguments) || outsideDirs(f.Directives) || outsideSels(f.SelectionSet) {
 				return true
 			}
 		case *ast.FragmentSpread:
-			if f == nil || outsideDirs(f.Directives) {
+			if f == nil || f.Definition != nil || f.ObjectDefinition != nil || f.Comment != nil || outsideDirs(f.Directives) {
 				return true
 			}
 		case *ast.InlineFragment:
-			if f == nil || outsideDirs(f.Directives) || outsideSels(f.SelectionSet) {
+			if f == nil || f.ObjectDefinition != nil || f.Position != nil || f.Comment != nil || outsideDirs(f.Directives) || outsideSels(f.SelectionSet) {
 				return true
 			}
 		default:
@@ -572,7 +574,7 @@ func outsideSels(ss ast.SelectionSet) bool {
 
 func outsideVarDefs(vs ast.VariableDefinitionList) bool {
 	for _, v := range vs {
-		if v == nil || v.Type == nil || (v.DefaultValue != nil && outsideValue(v.DefaultValue)) || outsideDirs(v.Directives) {
+		if v == nil || v.Type == nil || v.Comment != nil || v.Definition != nil || (v.DefaultValue != nil && outsideValue(v.DefaultValue)) || outsideDirs(v.Directives) {
 			return true
 		}
 	}
@@ -581,13 +583,16 @@ func outsideVarDefs(vs ast.VariableDefinitionList) bool {
 
 // outsideTree: the document is not a value of the tree type of the model (see jsondec)
 func outsideTree(d *ast.QueryDocument) bool {
+	if d.Comment != nil {
+		return true
+	}
 	for _, o := range d.Operations {
-		if o == nil || outsideVarDefs(o.VariableDefinitions) || outsideDirs(o.Directives) || outsideSels(o.SelectionSet) {
+		if o == nil || o.Position != nil || o.Comment != nil || outsideVarDefs(o.VariableDefinitions) || outsideDirs(o.Directives) || outsideSels(o.SelectionSet) {
 			return true
 		}
 	}
 	for _, f := range d.Fragments {
-		if f == nil || outsideVarDefs(f.VariableDefinition) || outsideDirs(f.Directives) || outsideSels(f.SelectionSet) {
+		if f == nil || f.Definition != nil || f.Position != nil || f.Comment != nil || outsideVarDefs(f.VariableDefinition) || outsideDirs(f.Directives) || outsideSels(f.SelectionSet) {
 			return true
 		}
 	}
